@@ -125,7 +125,7 @@ class C20(Prop):
     rule = ("sequences of 0-25 calls with non-decreasing integer call times: numbers as exact multiples of 1/64 with repeats, sub-tolerance "
             "drifts (steps of 1..6/64 versus 7/64), sign changes, differences of exactly one tolerance (the double 0.1) and one grid step off it; strings; lists; parameter objects (value/min/max changes, pending flag), both a "
             "fresh object per call and one live object changed by controller reports and by local set() + confirmation; "
-            "every filter (on_change, debounce n=0..4, throttle, delta, aggregate) and every ordered pair of filters as a chain; time.monotonic "
+            "aggregate also with strings / lists interspersed among the numbers (refused calls are no inputs); every filter (on_change, debounce n=0..4, throttle, delta, aggregate) and every ordered pair of filters as a chain; time.monotonic "
             "patched to the history's clock.  Non-trivial = at least one value delivered and one suppressed; distinct by case content.")
     assumptions = ["float rounding on arbitrary doubles is modelled, not verified: inputs are dyadic rationals of bounded magnitude on which "
                    "CPython's float +, - and isclose(abs_tol=0.1) are exact",
@@ -198,16 +198,40 @@ class C20(Prop):
                 if vt == "live":
                     case["how"] = [rng.choice(["update", "set"]) for _ in calls]
                 cases.append(case)
+            # aggregate fed an occasional string or list among the numbers: such a call is refused (ValueError) and is no input --
+            # what has been collected, the period and everything delivered later are those of the numeric calls alone
+            calls, t = [], rng.randrange(0, 5)
+            t0 = t
+            for v in self._values(rng, "num", rng.randrange(2, 20)):
+                t += rng.choice([0, 0, 1, 1, 2, 5, 11])
+                if rng.random() < 0.3:
+                    calls.append([t, rng.choice([[1, rng.randrange(3)], [2, [1, 2]]])])
+                    t += rng.choice([0, 1, 5, 11])
+                calls.append([t, v])
+            cases.append({"kind": "aggregate:mixed", "kinds": [[4, rng.choice([1, 5, 10])]], "t0": t0, "calls": calls})
         return cases
 
+    @staticmethod
+    def _calls(c):
+        return [x for x in c["calls"] if x[1][0] == 0] if c["kind"] == "aggregate:mixed" else c["calls"]
+
     def run_impl(self, c):
-        return vloop.run(_run, c["kinds"], c["t0"], c["calls"], c.get("how"))
+        b = vloop.run(_run, c["kinds"], c["t0"], c["calls"], c.get("how"))
+        if c["kind"] == "aggregate:mixed":
+            outs = []
+            for (t, v), o in zip(c["calls"], b[0]):
+                if v[0] == 0:
+                    outs.append(o)
+                elif o != ["exception", "ValueError"]:
+                    outs.append(["exception", "non-numeric value not refused with ValueError: " + repr(o)[:60]])
+            b = [outs, b[1], b[2]]
+        return b
 
     def model_many(self, cases):
         one = [(i, c) for i, c in enumerate(cases) if len(c["kinds"]) == 1]
         two = [(i, c) for i, c in enumerate(cases) if len(c["kinds"]) == 2]
         out = [None] * len(cases)
-        for (i, c), r in zip(one, model.call_many("frun", [[c["kinds"][0], c["t0"], c["calls"]] for _, c in one])):
+        for (i, c), r in zip(one, model.call_many("frun", [[c["kinds"][0], c["t0"], self._calls(c)] for _, c in one])):
             out[i] = [[self._fix(o) for o in r[0]], [self._fixv(x) for x in r[1]], r[2]]
         for (i, c), r in zip(two, model.call_many("frun2", [[c["kinds"][0], c["kinds"][1], c["t0"], c["calls"]] for _, c in two])):
             out[i] = [[self._fix(o) for o in r], None, None]
@@ -238,7 +262,7 @@ class C20(Prop):
                 res[i] = False
                 continue
             if len(c["kinds"]) == 1:
-                args.append([c["kinds"][0], c["t0"], c["calls"], b[0], b[1], b[2] if isinstance(b[2], int) else 0])
+                args.append([c["kinds"][0], c["t0"], self._calls(c), b[0], b[1], b[2] if isinstance(b[2], int) else 0])
                 idx.append(i)
         for i, r in zip(idx, model.call_many("P20", args)):
             res[i] = bool(r)
